@@ -163,8 +163,12 @@ Example C20_print_text_example :
   let sigs := [Sh 8 false; Sh 4 true] in
   let env := [200; -3] in
   let f := [CLit [97; 61]; CField (VAsS 0) [43; 48; 53]; CLit [32]; CField (VNeg 1) [35; 120]] in
-  spec_text sigs env f = Some [97;61;45;48;48;53;54;32;48;120;51].
-Proof. vm_compute. reflexivity. Qed.
+  spec_text sigs env f = Some [97;61;45;48;48;53;54;32;48;120;51] /\ format_wf sigs env f.
+Proof.
+  split; [vm_compute; reflexivity|].
+  cbn [format_wf]. repeat split; try (vm_compute; congruence); try (cbn; lia);
+    intros sp H; vm_compute in H; injection H as <-; reflexivity.
+Qed.
 
 (* FINDING (C20-brace-fill): Format accepts a '{' or '}' fill, Python formats it, the simulator's re-assembled
    format string "{:{<5}" is malformed and str.format raises ValueError at run time *)
